@@ -89,6 +89,13 @@ def blocks(tier, seed, prop='C01'):
                 cfg = E.Cfg(rule=rule, exception=None, misc=m, min_length=5)
                 out.append((f'ENZ/{r}/{rule}/m{m}', E.d1_cases(r, MAIN_TX[r], cfg), dict(deviations=1, rule=rule, misc=m)))
     out += novel_blocks(tier, seed)
+    if prop == 'C01':
+        # two alt-splicing records of one transcript in one run (among them records that share their anchor and donor
+        # start and differ in the donor end only): each record's own peptides are required; combinations of the two are not
+        # modelled, so this block is judged for completeness only
+        recs = as_records('R8', 'ENST08')
+        out.append(('AS/R8/pairs', [E.Case('R8', as_recs=(a, b), cfg=CFG_NONE) for i, a in enumerate(recs) for b in recs[i + 1:]],
+                    dict(deviations=2)))
     if tier == 'thorough':
         for r in ('R1', 'R3'):
             tx = MAIN_TX[r]
@@ -242,6 +249,15 @@ def novel_blocks(tier, seed):
             for v in E.small_alphabet(ref, 'ENST08', p, reduced=True):
                 cs.append(E.Case('R8', as_recs=(a,), small=(v,), cfg=CFG_NONE))
     out.append(('AS/R8/+D1', cs, dict(deviations=2)))
+    # small variants NESTED in the donor segment of an insertion / substitution (gene positions that are intronic for the
+    # transcript), up to and across the segment's last base
+    ns = []
+    for a in recs:
+        if a.kind in ('Insertion', 'Substitution'):
+            for gp in range(a.dstart, a.dend):
+                for v in E.small_alphabet_gene(ref, 'ENST08', gp):
+                    ns.append(E.Case('R8', as_recs=(a,), small=(v,), cfg=CFG_NONE))
+    out.append(('AS/R8/+nested', ns, dict(deviations=2)))
     return out
 
 
